@@ -831,18 +831,24 @@ where
 	C: NodeClient + 'a,
 	K: Keychain + 'a,
 {
-	if !update_wallet_state(
+	// the account the transaction is looked up in is the one that is active now, also
+	// if another one is made active while the wallet is brought up to date
+	let parent_key_id = {
+		wallet_lock!(wallet_inst, w);
+		w.parent_key_id()
+	};
+	if !update_wallet_state_of(
 		wallet_inst.clone(),
 		keychain_mask,
 		status_send_channel,
 		false,
+		parent_key_id.clone(),
 	)? {
 		return Err(Error::TransactionCancellationError(
 			"Can't contact running Grin node. Not Cancelling.",
 		));
 	}
 	wallet_lock!(wallet_inst, w);
-	let parent_key_id = w.parent_key_id();
 	tx::cancel_tx(&mut **w, keychain_mask, &parent_key_id, tx_id, tx_slate_id)
 }
 
@@ -1058,6 +1064,30 @@ where
 		wallet_lock!(wallet_inst, w);
 		w.parent_key_id()
 	};
+	update_wallet_state_of(
+		wallet_inst,
+		keychain_mask,
+		status_send_channel,
+		update_all,
+		parent_key_id,
+	)
+}
+
+/// The wallet state update for a given account (the caller decided which: an
+/// operation that goes on to work on that account must not find another one
+/// active after the update)
+fn update_wallet_state_of<'a, L, C, K>(
+	wallet_inst: Arc<Mutex<Box<dyn WalletInst<'a, L, C, K>>>>,
+	keychain_mask: Option<&SecretKey>,
+	status_send_channel: &Option<Sender<StatusMessage>>,
+	update_all: bool,
+	parent_key_id: Identifier,
+) -> Result<bool, Error>
+where
+	L: WalletLCProvider<'a, C, K>,
+	C: NodeClient + 'a,
+	K: Keychain + 'a,
+{
 	let client = {
 		wallet_lock!(wallet_inst, w);
 		w.w2n_client().clone()
